@@ -42,7 +42,7 @@ NameI == Iris({"a/"}, {"w", "x", "y", "z"})
 QtInner == Iris({"a/", "b/"}, {"x", "y"})
 QtTerms == {<<"qt", s, <<"iri", "a/", "x">>, o>> : s \in Iris({"a/"}, {"x", "y"}), o \in Iris({"a/", "b/"}, {"y"}) \cup {PlainLit("l")}}
 QtS == QtTerms \cup Iris({"a/"}, {"x"})
-QtP == Iris({"a/"}, {"x", "y"})
+QtP == Iris({"a/"}, {"x", "y"}) \cup {<<"qt", <<"iri", "a/", "y">>, <<"iri", "a/", "x">>, PlainLit("l")>>}     \* a quoted triple as predicate too (generalized RDF-star)
 QtO == QtTerms \cup Iris({"b/"}, {"y"})
 
 \* rejection slice
@@ -79,7 +79,7 @@ MixQt    == {<<"qt", <<"iri", "a/", "n0">>, <<"iri", "b#", "n1">>, PlainLit("l")
              <<"qt", Bn("b1"), <<"iri", "", "w">>, <<"qt", <<"iri", "a/", "x">>, <<"iri", "b/", "n2">>, TypedLit("1", "d:a")>>>>}
 SameText == {Bn("w"), Bn("x"), PlainLit("w")}        \* a blank node / literal whose text equals that of the IRIs <w>, <x> (empty prefix)
 MixS == MixIri \cup {Bn("b1"), Bn("b2")} \cup MixQt \cup {PlainLit("l")} \cup SameText
-MixP == MixIri \cup {Bn("b1"), TypedLit("1", "d:a")}
+MixP == MixIri \cup {Bn("b1"), TypedLit("1", "d:a")} \cup MixQt
 MixO == MixIri \cup {Bn("b1"), Bn("b2")} \cup MixLits \cup MixQt \cup SameText
 MixG == {DG, Bn("g"), Bn("x"), PlainLit("l"), TypedLit("1", "d:b")} \cup Iris({"a/", "b#", ""}, {"n0", "n3", "x"})
 MixNs == {<<"ex", "a/", "">>, <<"", "b#", "">>, <<"n", "", "x">>, <<"e2", "c/", "n4">>, <<"rdf", "d#", "">>}
